@@ -26,9 +26,10 @@ from harness.common import exc_name, jdump
 
 PID = "C12"
 TITLE = "Histogram and graph arithmetic, scaling and conversions keep every cell"
-LEAN_MODULES = ["LenaModel.Props.C12", "LenaModel.Props.C12Ext"]
+LEAN_MODULES = ["LenaModel.Props.C12", "LenaModel.Props.C12Ext", "LenaModel.Props.C12Alias"]
 LEAN_SOURCES = ["LenaModel/Model/NArr.lean", "LenaModel/Model/C12.lean", "LenaModel/Model/C12Ext.lean",
                 "LenaModel/Model/C12Spec.lean", "LenaModel/Lemmas/C12Spec.lean", "LenaModel/Props/C12Ext.lean",
+                "LenaModel/Model/C12Alias.lean", "LenaModel/Props/C12Alias.lean",
                 "LenaModel/Lemmas/C12.lean",
                 "LenaModel/Lemmas/C12Hist.lean", "LenaModel/Lemmas/C12Graph.lean", "LenaModel/Lemmas/C12Csv.lean",
                 "LenaModel/Props/C12.lean"]
@@ -81,6 +82,13 @@ THEOREMS = [
     "Lena.C12.csv_rows_valid_1d",
     "Lena.C12.csv_rows_valid_2d",
     "Lena.C12.parse_fmt",
+    "Lena.C12.graph_scale_aliasing",
+    "Lena.C12.rescaleRefs_spec",
+    "Lena.C12.mdMapH_spec",
+    "Lena.C12.hist_scale_aliasing",
+    "Lena.C12.set_nevents_aliasing",
+    "Lena.C12.rescaleInPlace_differs",
+    "Lena.C12.mdMapInPlace_differs",
 ]
 # true by unfolding one branch of the model / glue between definitions / decision procedures of the vocabulary: audited, but
 # not counted as proof obligations of the property
@@ -115,10 +123,16 @@ AUX_THEOREMS = [
     "Lena.C12.toCsvHistU_eq",
     "Lena.C12.mkHistU_some",
     "Lena.C12.addWith_cellwise",
+    "Lena.C12.readCols_append",
+    "Lena.C12.readBins_append",
+    "Lena.C12.readBins_node",
+    "Lena.C12.readCells_mono",
+    "Lena.C12.cellNums_spec",
+    "Lena.C12.mdMapSubs_spec",
 ]
 TRUSTED = [
     "Lean 4.33.0 kernel; axioms limited to propext, Classical.choice, Quot.sound (audited by #print axioms on every run)",
-    "hand transcription of the functions listed in the headers of LenaModel/Model/C12.lean and C12Ext.lean (and "
+    "hand transcription of the functions listed in the headers of LenaModel/Model/C12.lean, C12Ext.lean and C12Alias.lean (and "
     "NArr.lean: iter_bins, get_bin_on_index, md_map, init_bins; C06.lean: get_bin_on_value_1d), validated by this "
     "correspondence check on the generated cases only (generator quality bounds the assurance)",
     "the Python reference computations of the oracle and of the vocabulary checks (ref_cells, ref_integral, RefHist, "
@@ -167,6 +181,27 @@ ASSUMPTIONS = [
     "predicts something ('unmodelled' = no prediction), never judged",
     "operands are not modified / results do not alias operands: not expressible in the pure value model; checked by "
     "snapshots and identity checks on the real objects (lists only: for tuple edges deepcopy returns the same object)",
+    "list OBJECTS (adversary round): graphs whose columns are one list object (y = x, symmetric errors given once), "
+    "columns that are tuples, histograms whose rows / planes / axes are one list object (bins=[row]*n) and a structure that "
+    "is in a group twice are generated; the oracle judges only the values read through the structure after the operation "
+    "(never object identity, never the lists the caller passed in). That the value model is adequate for shared objects is "
+    "a theorem about the object-level transcription Model/C12Alias.lean (graph.scale and md_map allocate new lists and "
+    "write into none: graph_scale_aliasing, mdMapH_spec, hist_scale_aliasing, set_nevents_aliasing; the in-place variants "
+    "differ: rescaleInPlace_differs, mdMapInPlace_differs); that transcription is validated by the correspondence on "
+    "the aliased exact cases (ops graph_refs, hist_scale_refs, nevents_refs). histogram.add and graph.__add__ on shared "
+    "objects are covered by the oracle and the value correspondence only (md_map with two arrays has no object-level model)",
+    "call forms (adversary round): every public function / constructor of the statement is called with keyword "
+    "arguments, with positional arguments in the order of the documented signature (iter_cells(hist, ranges, coord_ranges); "
+    "add(other, weight) - the tolerances always by keyword; hist_to_graph / HistToGraph(make_value, get_coordinate, field_names, "
+    "scale); graph(coords, field_names, scale); ToCSV(separator, header) - row_end, last_row_end (documented as keyword arguments) and duplicate_last_bin always by keyword; "
+    "hist1d_to_csv / hist2d_to_csv(hist, header, separator, duplicate_last_bin); scale_to / GroupScale(scale_to, [group,] "
+    "allow_zero_scale, allow_unknown_scale); scale(other, recompute); set_nevents(nevents, include_out_of_range); "
+    "histogram(edges, bins, initial_value)) or mixed: these signatures are a fact about lena's public API that the harness "
+    "states (a change of the order is a breaking change of the API and is reported)",
+    "kinds of numbers (adversary round): targets, weights, numbers of events and graph scales are ints, floats or "
+    "fractions.Fraction (a numbers.Number that is neither; scale_to documents 'a number'); hist_to_graph's scale is None, "
+    "True or a number incl. 1 and 1.0 (which equal True but are numbers) and 0. decimal.Decimal (does not mix with float "
+    "contents in Python itself) and numpy scalars (numpy is not installed) are not generated",
 ]
 RULE = ("cases per op over histograms of every shape 1..4 (1-dim), 1..3 x 1..3 (2-dim), 1..3 x 1..3 x 1..2 (3-dim) with "
         "integer and dyadic-float contents of both signs (also all-zero and zero-integral ones) and dyadic edges: "
@@ -201,7 +236,13 @@ RULE = ("cases per op over histograms of every shape 1..4 (1-dim), 1..3 x 1..3 (
         "(the HistToGraph element: make_value None / Variable / not a Variable, context.histogram.to_graph, "
         "non-histograms), gchain (scale / scale() / + / rows() sequences on ONE graph, given or made by hist_to_graph), GroupScale on a non-sequence, graph + non-graph. Enumerated first: every shape x every "
         "histogram operation, every valid naming, the prefix/extension edges of add; then a seeded random mixture of all "
-        "operations (5.5 k quick / 120 k thorough), produced lazily. With every case the specification vocabulary of the "
+        "operations (12 k quick / 120 k thorough), produced lazily. Adversary round: every case also draws a call form (keyword / "
+        "positional in the documented order / mixed), the kind of its target number (int / float / Fraction), for graphs "
+        "whether equal columns are one list object and whether columns are tuples, for 2- and 3-dimensional histograms "
+        "whether rows / planes / axes are one list object (about a quarter each; also in chains and groups), a structure "
+        "twice in a group, hist_to_graph scale in {None, True, 1, 1.0, 0, 5, 1/2, -2} x kinds, CSV through the line-by-line "
+        "functions hist1d_to_csv / hist2d_to_csv directly, and (10 % of the mixture) larger shapes up to 11 bins, 5 x 2, "
+        "4 x 3 x 2. The aliased exact cases are also run through the object-level model. With every case the specification vocabulary of the "
         "theorems (Model/C12Spec.lean: wfB, validB, inRangeB, validRangesB, selAll/rangePred, cellEdgesRef, cellRow, "
         "pointOf, rowsFor, bins1d/2d, errorFieldOfB, edgesNotAbove; NArr.map/values/zipWith/get?/indexProd) is executed "
         "by the driver and compared with Python reference computations. Non-trivial: the structure has at least two cells/points and "
@@ -240,6 +281,8 @@ def pynum(s, kind):
     f = F(s)
     if kind == "int" and f.denominator == 1:
         return int(f)
+    if kind == "frac":
+        return f                     # a fractions.Fraction (a numbers.Number that is neither int nor float)
     x = float(f)
     assert F(x) == f, ("not exactly representable", s)
     return x
@@ -293,11 +336,27 @@ def build_hist(hc):
         edges = tuple(edges) if "f" in e else tuple(tuple(ax) for ax in edges)
     elif econt == "tuple_axes" and "n" in e:     # a list of tuples
         edges = [tuple(ax) for ax in edges]
-    h = lena.structures.histogram(edges, bins=py_nested(hc["bins"], kind))
+    bins = py_nested(hc["bins"], kind)
+    if hc.get("alias"):
+        # equal sub-lists of the bins (rows, planes) are ONE list object, equal axes of the edges too: bins=[row] * n,
+        # a row re-used for several x, edges=[axis, axis] are histograms like any other
+        bins = _intern_lists(bins, {})
+        if isinstance(edges, list) and edges and isinstance(edges[0], list):
+            edges = _intern_lists(edges, {})
+    h = lena.structures.histogram(edges, bins=bins)
     h.n_out_of_range = pynum(hc["nout"], kind)
     if hc.get("scale") is not None:
         h._scale = pynum(hc["scale"], "float")
     return h
+
+
+def _intern_lists(b, seen):
+    """the same nested list in which sub-lists with equal contents (and equal types of the numbers) are one object"""
+    if not isinstance(b, list):
+        return b
+    b = [_intern_lists(x, seen) for x in b]
+    key = repr(b)
+    return seen.setdefault(key, b)
 
 
 def hist_state(h):
@@ -362,6 +421,16 @@ def build_graph(gc):
     import lena.structures
     kind = gc.get("kind", "float")
     coords = [[pynum(x, kind) for x in col] for col in gc["coords"]]
+    if gc.get("alias"):
+        # columns with equal contents are ONE list object (y = x given as the same list, symmetric errors given once
+        # for error_y_low and error_y_high)
+        seen = {}
+        coords = [seen.setdefault(repr(col), col) for col in coords]
+    cont = gc.get("colcont")
+    if cont:
+        # "coords is a list of one-dimensional coordinate and value sequences (usually lists)": tuples are sequences
+        coords = [tuple(col) if (cont == "tuple" or (cont == "mixed" and k % 2 == 0)) else col
+                  for k, col in enumerate(coords)]
     names = gc["names"]
     if names is None:
         fn = ["x", "y"]          # a list: neither a string nor a tuple
@@ -370,6 +439,11 @@ def build_graph(gc):
     else:
         fn = tuple(names["t"])
     scale = None if gc.get("scale") is None else pynum(gc["scale"], gc.get("skind", "float"))
+    form = gc.get("form", "kw")
+    if form == "pos":
+        return lena.structures.graph(coords, fn, scale)
+    if form == "mix":
+        return lena.structures.graph(coords, fn, scale=scale)
     return lena.structures.graph(coords, field_names=fn, scale=scale)
 
 
@@ -428,6 +502,10 @@ def ref_parse_names(names):
 
 SHAPES = ([(n,) for n in range(1, 5)] + [(a, b) for a in range(1, 4) for b in range(1, 4)] +
           [(a, b, c) for a in range(1, 4) for b in range(1, 4) for c in range(1, 3)])
+#: larger shapes, part of the random mixture (index arithmetic that only fails for particular lengths)
+BIG_SHAPES = [(5,), (6,), (8,), (11,), (4, 4), (5, 2), (2, 5), (1, 6), (4, 3, 2), (2, 2, 3), (2, 3, 4), (1, 1, 5)]
+FORMS = ["kw", "pos", "mix"]
+NUM_KINDS = ["int", "float", "frac"]
 RATIOS = ["2", "3", "1/2", "-1", "1/4", "3/2", "1", "5", "-3/4", "8", "1/8"]
 TARGETS = ["1", "3", "10", "7", "-2", "1/3", "7/10", "1000", "1/1000"]
 
@@ -478,7 +556,41 @@ def gen_hist(rng, shape, kind=None, pattern=None, ekind=None):
         hc["econt"] = "tuple"
     elif r < 0.18:
         hc["econt"] = "tuple_axes"
+    _alias_hist(rng, hc, shape)
     return hc
+
+
+def _alias_hist(rng, hc, shape):
+    """about a quarter of the 2- and 3-dimensional histograms have rows (planes) that are ONE list object
+    (bins=[row] * n, a row re-used for several x; build_hist shares equal sub-lists when "alias" is set); some have
+    two axes that are one list"""
+    if len(shape) < 2:
+        return
+    b = hc["bins"]
+    r = rng.random()
+    if r < 0.25:
+        how = rng.random()
+        if len(shape) == 2 or how < 0.5:
+            src = rng.randrange(len(b))
+            for k in range(len(b)):
+                if k != src and rng.random() < 0.75:
+                    b[k] = copy.deepcopy(b[src])
+        if len(shape) == 3 and how >= 0.3:
+            src = copy.deepcopy(rng.choice(rng.choice(b)))
+            for plane in b:
+                for k in range(len(plane)):
+                    if rng.random() < 0.6:
+                        plane[k] = copy.deepcopy(src)
+        hc["alias"] = True
+    elif r < 0.30:
+        hc["alias"] = True           # whatever is equal by chance (all rows of an all-zero histogram)
+    axes = hc["edges"].get("n")
+    if axes and "econt" not in hc and rng.random() < 0.12:
+        same = [(i, j) for i in range(len(axes)) for j in range(len(axes)) if i < j and len(axes[i]) == len(axes[j])]
+        if same:
+            i, j = rng.choice(same)
+            axes[j] = list(axes[i])
+            hc["alias"] = True
 
 
 def zero_integral_hist(rng):
@@ -497,14 +609,18 @@ def hscale_case(rng, hc, exact):
     if exact:
         r = q(rng.choice(RATIOS))
         other = r * I if I != 0 else r
-        c["other"], c["okind"] = enc(other), rng.choice(["int", "float"])
+        c["other"], c["okind"] = enc(other), rng.choice(NUM_KINDS)
     else:
         c["other"], c["okind"] = rng.choice(TARGETS + ["0"] * 1), "float"
         try:
             pynum(c["other"], "float")
         except AssertionError:
-            # a target that is not a float (1/3, 7/10): the real code gets the nearest float, the oracle its exact value
-            c["other"] = enc(float(q(c["other"])))
+            if rng.random() < 0.4:
+                c["okind"] = "frac"      # the target 1/3 or 7/10 itself, as a fractions.Fraction
+            else:
+                # a target that is not a float (1/3, 7/10): the real code gets the nearest float, the oracle its exact value
+                c["other"] = enc(float(q(c["other"])))
+    c["form"] = rng.choice(FORMS)
     return c
 
 
@@ -512,7 +628,7 @@ def scale_get_case(rng, hc):
     """scale(recompute) of a histogram whose scale was or was not computed before (possibly stale)"""
     I = ref_integral(hc)
     cached = rng.choice([None, enc(I), enc(I + 1), enc(I * 2 + F(1, 2)), "0"])
-    return {"op": "scale_get", "h": dict(hc, scale=cached), "recompute": rng.random() < 0.5}
+    return {"op": "scale_get", "h": dict(hc, scale=cached), "recompute": rng.random() < 0.5, "form": rng.choice(FORMS)}
 
 
 def nevents_case(rng, hc, exact):
@@ -524,7 +640,8 @@ def nevents_case(rng, hc, exact):
         c["n"] = enc(r * tot if tot != 0 else r)
     else:
         c["n"] = enc(float(q(rng.choice(TARGETS))))
-    c["nkind"] = rng.choice(["int", "float"])
+    c["nkind"] = rng.choice(NUM_KINDS if exact else ["int", "float"])
+    c["form"] = rng.choice(FORMS)
     return c
 
 
@@ -575,8 +692,8 @@ def add_prefix_case(rng, shape, axis, order, extra=1):
     small.pop("econt", None)
     big = extend_axis(rng, small, axis, extra)
     a, b = (small, big) if order == "ext" else (big, small)
-    return {"op": "add", "a": a, "b": b, "w": rng.choice(["1", "1", "-1", "2", "1/2"]), "wkind": rng.choice(["int", "float"]),
-            "tol": rng.choice([None, None, ["0", "0"], ["1/1024", "0"]]), "rel": order}
+    return {"op": "add", "a": a, "b": b, "w": rng.choice(["1", "1", "-1", "2", "1/2"]), "wkind": rng.choice(NUM_KINDS),
+            "tol": rng.choice([None, None, ["0", "0"], ["1/1024", "0"]]), "rel": order, "form": rng.choice(FORMS)}
 
 
 def add_case(rng, shape):
@@ -606,7 +723,8 @@ def add_case(rng, shape):
     tol = rng.choice([None, None, ["0", "0"], ["1/1024", "0"], ["0", "1/1024"]])
     if rel == "mid":
         tol = rng.choice([["1/1024", "0"], ["0", "1/1024"]])
-    c = {"op": "add", "a": a, "b": b, "w": w, "wkind": rng.choice(["int", "float"]), "tol": tol, "rel": rel}
+    c = {"op": "add", "a": a, "b": b, "w": w, "wkind": rng.choice(NUM_KINDS), "tol": tol, "rel": rel,
+         "form": rng.choice(FORMS)}
     r2 = rng.random()
     if rel == "same" and r2 < 0.3:
         # arbitrary floats (thirds, tenths, long decimals) and weights: the sum is judged with a rigorous rounding bound
@@ -670,7 +788,7 @@ def iter_case(rng, shape):
         else:
             axes = axes_of(hc)
             axes[-1].append(enc(q(axes[-1][-1]) + 1))
-    return {"op": "iter", "h": hc, "ranges": ranges}
+    return {"op": "iter", "h": hc, "ranges": ranges, "form": rng.choice(FORMS)}
 
 
 MV_WIDTH = {None: 1, "double": 1, "pair": 2, "triple": 3, "pairlist": 2}
@@ -699,8 +817,10 @@ def h2g_case(rng, shape):
         names = {"t": [n if i else "error_q" for i, n in enumerate(base)]}   # invalid naming
     if width == 1 + dim and mv is None and r < 0.3:
         names = {"t": COORD_NAMES[:dim] + ["y" if dim == 1 else "val"]}
-    sc = rng.choice([None, None, True, "5", "0"])
-    c = {"op": "h2g", "h": hc, "mv": mv, "mode": mode, "fields": names, "scale": sc}
+    # numbers that compare equal to True / False are numbers: a graph of scale 1 (a normalised density) is not scale=True
+    sc = rng.choice([None, None, True, True, "5", "0", "1", "1", "1/2", "-2"])
+    c = {"op": "h2g", "h": hc, "mv": mv, "mode": mode, "fields": names, "scale": sc, "skind": rng.choice(NUM_KINDS),
+         "form": rng.choice(FORMS)}
     if dim == 1 and rng.random() < 0.25:
         # the call with every argument left at its default: hist_to_graph(hist) / HistToGraph()
         c.update(mv=None, mode="left", fields={"t": ["x", "y"]}, scale=None, defaults=True)
@@ -747,8 +867,19 @@ def graph_case(rng, names, npts=None, kind=None, form=None):
     form = form or rng.choice(["t", "t", "t", "s"])
     nm = {"t": list(names)} if form == "t" else {"s": rng.choice([",", ", ", " "]).join(names)}
     sc = rng.choice([None, "0", "2", "3/4", "-5", "1", "8"])
-    c = {"op": "graph", "g": {"coords": coords, "names": nm, "scale": sc, "kind": kind, "skind": rng.choice(["int", "float"])},
-         "exact": True}
+    g = {"coords": coords, "names": nm, "scale": sc, "kind": kind, "skind": rng.choice(NUM_KINDS), "form": rng.choice(FORMS)}
+    if ncols >= 2 and npts and rng.random() < 0.3:
+        # columns that are ONE list object (y = x given as the same list, symmetric errors given once)
+        for _ in range(rng.randint(1, 2)):
+            i, j = rng.sample(range(ncols), 2)
+            coords[j] = list(coords[i])
+        g["alias"] = True
+    r = rng.random()
+    if r < 0.10:
+        g["colcont"] = "tuple"       # the coordinate sequences are tuples
+    elif r < 0.18:
+        g["colcont"] = "mixed"
+    c = {"op": "graph", "g": g, "exact": True, "form": rng.choice(FORMS)}
     r = q(rng.choice(RATIOS))
     if sc is not None and q(sc) != 0:
         if rng.random() < 0.8:
@@ -757,7 +888,7 @@ def graph_case(rng, names, npts=None, kind=None, form=None):
             c["other"], c["exact"] = enc(float(q(rng.choice(TARGETS)))), False
     else:
         c["other"] = enc(r)
-    c["okind"] = rng.choice(["int", "float"])
+    c["okind"] = rng.choice(NUM_KINDS if c["exact"] else ["int", "float"])
     return c
 
 
@@ -791,7 +922,7 @@ def iter_coord_case(rng, shape):
             n = 0
         coord = {"many": [[enc(coord_value(rng, axes[min(k, len(axes) - 1)])), enc(coord_value(rng, axes[min(k, len(axes) - 1)]))]
                           for k in range(n)]}
-    c = {"op": "iter_coord", "h": hc, "coord": coord, "ranges_given": rng.random() < 0.05}
+    c = {"op": "iter_coord", "h": hc, "coord": coord, "ranges_given": rng.random() < 0.05, "form": rng.choice(FORMS)}
     if rng.random() < 0.5:
         # ordered ranges are the interesting ones
         for pr in coord.get("many", [coord.get("single")] if "single" in coord else []):
@@ -835,6 +966,8 @@ def csv_text_case(rng, shape):
             return enc(F(rng.randint(-300, 300), 128))
         hc["bins"] = map_nested(val, hc["bins"])
         hc["kind"] = "float"
+    if rng.random() < 0.25:
+        c["direct"] = True       # hist1d_to_csv / hist2d_to_csv called directly (line by line), not through ToCSV
     return c
 
 
@@ -860,7 +993,7 @@ def csv_flow_case(rng):
         vals.append(v)
     base = vals[0]
     return {"op": "csv_flow", "vals": vals, "sep": base["sep"], "header": base["header"], "row_end": base["row_end"],
-            "last_row_end": base["last_row_end"], "dup": base["dup"]}
+            "last_row_end": base["last_row_end"], "dup": base["dup"], "form": rng.choice(FORMS)}
 
 
 def h2g_flow_case(rng):
@@ -991,7 +1124,7 @@ def chain_case(rng, shape=None):
     if "c" in ref and rng.random() < 0.8:
         steps.append({"k": "scale_get", "o": "c", "rc": False})
         steps.append({"k": "nevents", "o": "c", "incl": False})
-    return {"op": "chain", "a": a, "b": b, "steps": steps}
+    return {"op": "chain", "a": a, "b": b, "steps": steps, "form": rng.choice(FORMS), "nk": rng.choice(NUM_KINDS)}
 
 
 class RefGraph:
@@ -1054,8 +1187,8 @@ def gchain_case(rng):
         hg = h2g_case(rng, rng.choice(SHAPES[:13]))
         if hg["mode"] not in ("left", "right", "middle"):
             hg["mode"] = "middle"
-        hg["scale"] = rng.choice([True, True, "4", "1/2", None, "0"])
-        src = {"h2g": {k: hg[k] for k in ("h", "mv", "mode", "fields", "scale")}}
+        hg["scale"] = rng.choice([True, True, "4", "1/2", None, "0", "1", "1"])
+        src = {"h2g": {k: hg[k] for k in ("h", "mv", "mode", "fields", "scale", "skind")}}
         names = names_tuple(hg["fields"]) or ("x", "y")
     else:
         names = rng.choice(all_namings_cached() + [["x", "y"], ["x"], ["x", "y", "z"]] * 200)
@@ -1088,7 +1221,7 @@ def gchain_case(rng):
                 ref.add(r2)          # with error fields the code raises and the graph stays as it is
         steps.append(st)
     steps.append({"k": "rows"})
-    return {"op": "gchain", "src": src, "g2": g2, "steps": steps}
+    return {"op": "gchain", "src": src, "g2": g2, "steps": steps, "form": rng.choice(FORMS), "nk": rng.choice(NUM_KINDS)}
 
 
 def graph_add_case(rng):
@@ -1133,13 +1266,22 @@ def csv_case(rng, shape):
     return _csv_defaults({"op": "csv", "h": hc, "to_csv": rng.random() > 0.08, "ctx_dup": rng.choice([None, None, True, False]),
             "dup": rng.random() < 0.5, "header": rng.choice([None, None, "", "x,y", "# head"]),
             "sep": rng.choice([",", ",", ";", " ", "\t"]), "row_end": rng.choice(["", "", " \\\\"]),
-            "last_row_end": rng.choice(["", "", " \\\\", "\n"]), "pair": rng.random() < 0.8,
+            "last_row_end": rng.choice(["", "", " \\\\", "\n"]), "pair": rng.random() < 0.8, "form": rng.choice(FORMS),
             **({"defaults": True} if rng.random() < 0.15 else {})})
 
 
 def gen_hist_pow2(rng, shape):
     """a histogram whose integral is 0 or +-2**k (so that target/integral is exact in floating point for the
     power-of-two targets used in groups): all bin widths are 1 or all are 2, the last cell balances the sum"""
+    if len(shape) >= 2 and shape[0] == 2 and rng.random() < 0.4:
+        # the two rows (planes) are ONE list object: [sub, sub] over two bins of equal width keeps the integral a power of two
+        sub = gen_hist_pow2(rng, shape[1:])
+        sub_axes = axes_of(sub)
+        step = q(sub_axes[0][1]) - q(sub_axes[0][0])
+        x = rng.randint(-3, 3)
+        return {"edges": {"n": [[enc(F(x + step * i)) for i in range(3)]] + sub_axes},
+                "bins": [sub["bins"], copy.deepcopy(sub["bins"])], "nout": sub["nout"], "scale": None,
+                "kind": sub["kind"], "ekind": "int", "alias": True}
     step = rng.choice([1, 2])
     axes = []
     for n in shape:
@@ -1189,21 +1331,28 @@ def scale_to_case(rng):
         target = "hist"
     else:
         target = "graph"
-    return {"op": "scale_to", "group": group, "target": target, "az": rng.random() < 0.4, "au": rng.random() < 0.4,
-            "via": rng.choice(["scale_to", "GroupScale"]), "ctx": rng.random() < 0.7, "seq": rng.random() > 0.06,
-            "tuple": rng.random() < 0.3}
+    c = {"op": "scale_to", "group": group, "target": target, "az": rng.random() < 0.4, "au": rng.random() < 0.4,
+         "via": rng.choice(["scale_to", "GroupScale"]), "ctx": rng.random() < 0.7, "seq": rng.random() > 0.06,
+         "tuple": rng.random() < 0.3, "form": rng.choice(FORMS), "tkind": rng.choice(NUM_KINDS)}
+    if n >= 2 and target not in ("hist", "graph") and rng.random() < 0.15:
+        # one structure that is in the group twice (the same object): rescaled to s when it is met first, from s to s
+        # (exactly, s is a power of two) when it is met again; reference and model see the group without the repetition
+        i, j = sorted(rng.sample(range(n), 2))
+        group[j] = copy.deepcopy(group[i])
+        c["same"] = [i, j]
+    return c
 
 
 def scale_to_call_case(rng):
     return {"op": "scale_to_call", "item": group_item(rng), "s": rng.choice(["1", "2", "4", "1/2", "-8", "16"]),
-            "ctx": rng.random() < 0.5}
+            "ctx": rng.random() < 0.5, "tkind": rng.choice(NUM_KINDS)}
 
 
 def mk_hist_case(rng):
     shape = rng.choice(SHAPES)
     hc = gen_hist(rng, shape)
     c = {"op": "mk_hist", "edges": copy.deepcopy(hc["edges"]), "bins": rng.choice([None, hc["bins"]]),
-         "init": rng.choice(["0", "0", "1", "5/2"]), "kind": hc["kind"], "ekind": hc["ekind"]}
+         "init": rng.choice(["0", "0", "1", "5/2"]), "kind": hc["kind"], "ekind": hc["ekind"], "form": rng.choice(FORMS)}
     r = rng.random()
     axes = [c["edges"]["f"]] if "f" in c["edges"] else c["edges"]["n"]
     if r < 0.15:
@@ -1240,7 +1389,7 @@ def _bad_graph_case(rng):
 
 def _csv_graph_case(rng):
     g = graph_case(rng, rng.choice(all_namings_cached()))["g"]
-    return {"op": "csv_graph", "g": g, "to_csv": rng.random() > 0.1, "header": rng.choice([None, "", "a b"]),
+    return {"op": "csv_graph", "g": g, "form": rng.choice(FORMS), "to_csv": rng.random() > 0.1, "header": rng.choice([None, "", "a b"]),
             "sep": rng.choice([",", ";", " "]), "row_end": rng.choice(["", " \\\\"]),
             "last_row_end": rng.choice(["", "\n"])}
 
@@ -1263,7 +1412,7 @@ def _csv_text_case(rng):
 
 
 def _rshape(rng):
-    return rng.choice(SHAPES)
+    return rng.choice(BIG_SHAPES) if rng.random() < 0.1 else rng.choice(SHAPES)
 
 
 #: the random mixture: (weight, case maker)
@@ -1339,7 +1488,7 @@ def gen_cases(ctx):
             yield graph_case(rng, names, form=form)
     # the random mixture
     makers = [m for w, m in MIXTURE for _ in range(w)]
-    for _ in range(120000 if thorough else 5500):
+    for _ in range(120000 if thorough else 12000):
         yield rng.choice(makers)(rng)
 
 
@@ -1378,6 +1527,35 @@ def _exc(e):
     return {"e": exc_name(e)}
 
 
+_NG = object()        # an optional argument that the call does not give
+
+
+def _call(fn, form, req, opts, npos=None):
+    """fn(*req, <optional arguments>) in one of the call forms that the documented signature allows.  opts lists
+    (name, value or _NG, documented default) in the documented order.  'kw' (default): the given options by keyword;
+    'pos': every option up to the last given one positionally (the documented default where none is given) - at most
+    the first npos options, the others by keyword (options that the documentation introduces as keyword arguments,
+    tolerances); 'mix': the first option positionally if it is given, the others by keyword."""
+    given = [i for i, (_, v, _d) in enumerate(opts) if v is not _NG]
+    if form == "pos" and given:
+        k = given[-1] + 1 if npos is None else min(npos, given[-1] + 1)
+        return fn(*req, *[(d if v is _NG else v) for _, v, d in opts[:k]],
+                  **{n: v for n, v, _ in opts[k:] if v is not _NG})
+    if form == "mix" and given and given[0] == 0:
+        return fn(*req, opts[0][1], **{n: v for n, v, _ in opts[1:] if v is not _NG})
+    return fn(*req, **{n: v for n, v, _ in opts if v is not _NG})
+
+
+def _h2g_opts(case_like, mv):
+    """the optional arguments of hist_to_graph / HistToGraph in their documented order"""
+    names = case_like["fields"]
+    fn = ["x", "y"] if names is None else (names["s"] if "s" in names else tuple(names["t"]))
+    sc = case_like["scale"]
+    scale = sc if (sc is None or sc is True) else pynum(sc, case_like.get("skind", "int"))
+    return [("make_value", mv, None), ("get_coordinate", case_like["mode"], "left"), ("field_names", fn, ("x", "y")),
+            ("scale", scale, None)]
+
+
 def _mv(name):
     return {None: None, "double": (lambda v: 2 * v), "pair": (lambda v: (v, v / 2)),
             "triple": (lambda v: (v, v / 2, v / 4)), "pairlist": (lambda v: [v, v / 2])}[name]
@@ -1393,6 +1571,19 @@ def _group_objs(items, with_ctx):
         else:
             d = build_graph(it["graph"])
         objs.append((d, {"k": 1}) if with_ctx else d)
+    return objs
+
+
+def _once(case, seq):
+    """the list without the repeated occurrence of an object that is in the group twice"""
+    same = case.get("same")
+    return list(seq) if not same else [x for k, x in enumerate(seq) if k != same[1]]
+
+
+def _share(objs, same):
+    """group item j is the very object that item i is"""
+    if same:
+        objs[same[1]] = objs[same[0]]
     return objs
 
 
@@ -1421,7 +1612,8 @@ def run_impl(case):
         edges = [pynum(x, ek) for x in e["f"]] if "f" in e else [[pynum(x, ek) for x in ax] for ax in e["n"]]
         bins = None if case["bins"] is None else py_nested(case["bins"], k)
         try:
-            h = lena.structures.histogram(edges, bins=bins, initial_value=pynum(case["init"], k))
+            h = _call(lena.structures.histogram, case.get("form"), [edges],
+                      [("bins", bins, None), ("initial_value", pynum(case["init"], k), 0)])
         except Exception as ex:
             return _exc(ex)
         return {"h": hist_state(h), "dim": h.dim, "nbins": list(h.nbins)}
@@ -1435,8 +1627,9 @@ def run_impl(case):
         except Exception as ex:
             res["scale0"] = _exc(ex)
         other = pynum(case["other"], case["okind"])
+        form = case.get("form", "pos")
         try:
-            ret = h.scale(other)
+            ret = _call(h.scale, form, [], [("other", other, None)])
             res["ret_none"] = ret is None
         except Exception as ex:
             res["e"] = exc_name(ex)
@@ -1448,7 +1641,7 @@ def run_impl(case):
             except Exception as ex:
                 res["get"] = _exc(ex)
             try:
-                res["recomputed"] = enc(h.scale(recompute=True))
+                res["recomputed"] = enc(_call(h.scale, form, [], [("other", _NG, None), ("recompute", True, False)]))
             except Exception as ex:
                 res["recomputed"] = _exc(ex)
         return res
@@ -1456,7 +1649,7 @@ def run_impl(case):
     if op == "scale_get":
         h = build_hist(case["h"])
         try:
-            r = h.scale(recompute=case["recompute"])
+            r = _call(h.scale, case.get("form"), [], [("other", _NG, None), ("recompute", case["recompute"], False)])
         except Exception as ex:
             return _exc(ex)
         return {"r": enc(r), "after": hist_state(h), "again": enc(h.scale())}
@@ -1464,15 +1657,17 @@ def run_impl(case):
     if op == "nevents":
         h = build_hist(case["h"])
         snap = copy.deepcopy(h.edges)
-        res = {"nev_in": enc(h.get_nevents()), "nev_all": enc(h.get_nevents(include_out_of_range=True))}
+        form = case.get("form")
+        res = {"nev_in": enc(h.get_nevents()),
+               "nev_all": enc(_call(h.get_nevents, form, [], [("include_out_of_range", True, False)]))}
         try:
-            h.set_nevents(pynum(case["n"], case["nkind"]), include_out_of_range=case["incl"])
+            _call(h.set_nevents, form, [pynum(case["n"], case["nkind"])], [("include_out_of_range", case["incl"], False)])
         except Exception as ex:
             res["e"] = exc_name(ex)
             return res
         res["after"] = hist_state(h)
         res["edges_same"] = bool(h.edges == snap)
-        res["nev_after"] = enc(h.get_nevents(include_out_of_range=case["incl"]))
+        res["nev_after"] = enc(_call(h.get_nevents, form, [], [("include_out_of_range", case["incl"], False)]))
         return res
 
     if op == "add":
@@ -1480,14 +1675,14 @@ def run_impl(case):
         b = 5 if case["rel"] == "nothist" else build_hist(case["b"])
         sa = hist_state(a)
         sb = None if case["rel"] == "nothist" else hist_state(b)
-        kw = {}
-        if case["tol"] is not None:
-            kw = {"edges_rel_tol": pynum(case["tol"][0], "float"), "edges_abs_tol": pynum(case["tol"][1], "float")}
+        rel_, abs_ = (_NG, _NG) if case["tol"] is None else (pynum(case["tol"][0], "float"), pynum(case["tol"][1], "float"))
         try:
             if case.get("defaults"):
                 c = a.add(b)
             else:
-                c = a.add(b, pynum(case["w"], case["wkind"]), **kw)
+                # documented order: add(other, weight=1, edges_abs_tol=0.0, edges_rel_tol=1e-9)
+                c = _call(a.add, case.get("form", "mix"), [b], [("weight", pynum(case["w"], case["wkind"]), 1),
+                                                                 ("edges_abs_tol", abs_, 0.0), ("edges_rel_tol", rel_, 1e-9)], npos=1)
         except Exception as ex:
             res = _exc(ex)
         else:
@@ -1511,7 +1706,7 @@ def run_impl(case):
         rg = case["ranges"]
         ranges = None if rg is None else tuple(tuple(r) for r in rg)
         try:
-            cells = list(hf.iter_cells(h, ranges=ranges))
+            cells = list(_call(hf.iter_cells, case.get("form"), [h], [("ranges", ranges, None), ("coord_ranges", _NG, None)]))
             res["cells"] = [[[[enc(lo), enc(hi)] for lo, hi in c.edges], enc_nested(c.bin), list(c.index)] for c in cells]
             res["cell_types"] = sorted({type(c).__name__ for c in cells})
         except Exception as ex:
@@ -1520,15 +1715,11 @@ def run_impl(case):
 
     if op == "h2g":
         h = build_hist(case["h"])
-        names = case["fields"]
-        fn = ["x", "y"] if names is None else (names["s"] if "s" in names else tuple(names["t"]))
-        sc = case["scale"]
-        scale = sc if (sc is None or sc is True) else pynum(sc, "int")
         try:
             if case.get("defaults"):
                 g = hf.hist_to_graph(h)
             else:
-                g = hf.hist_to_graph(h, make_value=_mv(case["mv"]), get_coordinate=case["mode"], field_names=fn, scale=scale)
+                g = _call(hf.hist_to_graph, case.get("form"), [h], _h2g_opts(case, _mv(case["mv"])))
         except Exception as ex:
             return _exc(ex)
         return {"g": graph_state(g), "rows": [[enc(x) for x in row] for row in g], "hscale":
@@ -1543,7 +1734,7 @@ def run_impl(case):
         res = {"g": graph_state(g), "rows": [[enc(x) for x in row] for row in g.rows()], "get0":
                None if g.scale() is None else enc(g.scale())}
         try:
-            ret = g.scale(pynum(case["other"], case["okind"]))
+            ret = _call(g.scale, case.get("form", "pos"), [], [("other", pynum(case["other"], case["okind"]), None)])
             res["scaled"] = graph_state(g)
             res["ret_none"] = ret is None
             res["get"] = None if g.scale() is None else enc(g.scale())
@@ -1582,11 +1773,7 @@ def run_impl(case):
                 g = build_graph(src["g"])
             else:
                 hg = src["h2g"]
-                names = hg["fields"]
-                fn = ["x", "y"] if names is None else (names["s"] if "s" in names else tuple(names["t"]))
-                sc = hg["scale"]
-                g = hf.hist_to_graph(build_hist(hg["h"]), make_value=_mv(hg["mv"]), get_coordinate=hg["mode"],
-                                     field_names=fn, scale=sc if (sc is None or sc is True) else pynum(sc, "int"))
+                g = _call(hf.hist_to_graph, case.get("form"), [build_hist(hg["h"])], _h2g_opts(hg, _mv(hg["mv"])))
             g2 = None if case["g2"] is None else build_graph(case["g2"])
         except Exception as ex:
             return {"e": exc_name(ex), "phase": "init"}
@@ -1595,7 +1782,7 @@ def run_impl(case):
             k = st["k"]
             try:
                 if k == "scale":
-                    g.scale(pynum(st["s"], "float"))
+                    _call(g.scale, case.get("form", "pos"), [], [("other", pynum(st["s"], case.get("nk", "float")), None)])
                     obs.append({"ok": True})
                 elif k == "get":
                     r = g.scale()
@@ -1612,31 +1799,34 @@ def run_impl(case):
     if op == "chain":
         env = {"a": build_hist(case["a"]), "b": build_hist(case["b"])}
         obs = []
+        form, nk = case.get("form"), case.get("nk", "float")
         for st in case["steps"]:
             k = st["k"]
             try:
                 if k == "scale_get":
-                    obs.append({"r": enc(env[st["o"]].scale(recompute=st["rc"]))})
+                    obs.append({"r": enc(_call(env[st["o"]].scale, form, [], [("other", _NG, None), ("recompute", st["rc"], False)]))})
                 elif k == "scale_set":
-                    env[st["o"]].scale(pynum(st["s"], "float"))
+                    _call(env[st["o"]].scale, form or "pos", [], [("other", pynum(st["s"], nk), None)])
                     obs.append({"ok": True})
                 elif k == "set_nevents":
-                    env[st["o"]].set_nevents(pynum(st["n"], "float"), include_out_of_range=st["incl"])
+                    _call(env[st["o"]].set_nevents, form, [pynum(st["n"], nk)], [("include_out_of_range", st["incl"], False)])
                     obs.append({"ok": True})
                 elif k == "nevents":
-                    obs.append({"r": enc(env[st["o"]].get_nevents(include_out_of_range=st["incl"]))})
+                    obs.append({"r": enc(_call(env[st["o"]].get_nevents, form, [], [("include_out_of_range", st["incl"], False)]))})
                 elif k == "add":
-                    kw = {} if st["tol"] is None else {"edges_rel_tol": pynum(st["tol"][0], "float"),
-                                                        "edges_abs_tol": pynum(st["tol"][1], "float")}
-                    env["c"] = env[st["x"]].add(env[st["y"]], pynum(st["w"], "int"), **kw)
+                    rel_, abs_ = (_NG, _NG) if st["tol"] is None else (pynum(st["tol"][0], "float"), pynum(st["tol"][1], "float"))
+                    env["c"] = _call(env[st["x"]].add, form or "mix", [env[st["y"]]],
+                                     [("weight", pynum(st["w"], "frac" if nk == "frac" else "int"), 1),
+                                      ("edges_abs_tol", abs_, 0.0), ("edges_rel_tol", rel_, 1e-9)], npos=1)
                     obs.append({"ok": True})
             except Exception as ex:
                 obs.append({"e": exc_name(ex)})
         return {"obs": obs, "final": {o: (hist_state(env[o]) if o in env else None) for o in ("a", "b", "c")}}
 
     if op == "csv_flow":
-        el = lena.output.ToCSV(separator=case["sep"], header=case["header"], row_end=case["row_end"],
-                               last_row_end=case["last_row_end"], duplicate_last_bin=case["dup"])
+        el = _call(lena.output.ToCSV, case.get("form"), [], [("separator", case["sep"], ","), ("header", case["header"], None),
+                                                             ("row_end", case["row_end"], ""), ("last_row_end", case["last_row_end"], ""),
+                                                             ("duplicate_last_bin", case["dup"], True)], npos=2)
         vals = []
         for v in case["vals"]:
             data = build_hist(v["h"])
@@ -1667,12 +1857,8 @@ def run_impl(case):
     if op == "h2g_flow":
         import lena.variables
         first = case["vals"][0]
-        names = first["fields"]
-        fn = ["x", "y"] if names is None else (names["s"] if "s" in names else tuple(names["t"]))
-        sc = first["scale"]
-        scale = sc if (sc is None or sc is True) else pynum(sc, "int")
         mv = None if first["mv"] is None else lena.variables.Variable("val", _mv(first["mv"]))
-        el = lena.structures.HistToGraph(make_value=mv, get_coordinate=first["mode"], field_names=fn, scale=scale)
+        el = _call(lena.structures.HistToGraph, first.get("form"), [], _h2g_opts(first, mv))
         outs = []
         hs = []
         vals = []
@@ -1722,7 +1908,26 @@ def run_impl(case):
         if case.get("ctx_dup") is not None:
             ctx.setdefault("output", {})["duplicate_last_bin"] = case["ctx_dup"]
         val = (data, ctx) if case.get("pair", True) or ctx else data
-        el = lena.output.ToCSV() if (case.get("defaults") and op != "csv_graph") else lena.output.ToCSV(**el_kw)
+        if case.get("direct") and op == "csv_text" and case.get("data") != "other" and case["to_csv"] and data.dim <= 2:
+            # the documented line-by-line functions hist1d_to_csv / hist2d_to_csv(hist, header=None, separator=',',
+            # duplicate_last_bin=True), joined as ToCSV.run joins them
+            dup = case["dup"] if case.get("ctx_dup") is None else case["ctx_dup"]
+            fn = lena.output.hist1d_to_csv if data.dim == 1 else lena.output.hist2d_to_csv
+            try:
+                lines = list(_call(fn, case.get("form"), [data], [("header", case["header"], None), ("separator", case["sep"], ","),
+                                                                   ("duplicate_last_bin", dup, True)]))
+            except Exception as ex:
+                return _exc(ex)
+            if not all(isinstance(l, str) for l in lines):
+                return {"unchanged": False, "not_text": "lines"}
+            return {"text": (case["row_end"] + "\n").join(lines) + case["last_row_end"], "ctx": {}}
+        if case.get("defaults") and op != "csv_graph":
+            el = lena.output.ToCSV()
+        else:
+            el = _call(lena.output.ToCSV, case.get("form"), [], [
+                ("separator", case["sep"], ","), ("header", case["header"], None), ("row_end", case["row_end"], ""),
+                ("last_row_end", case["last_row_end"], "")] +
+                ([("duplicate_last_bin", el_kw["duplicate_last_bin"], True)] if "duplicate_last_bin" in el_kw else []), npos=2)
         with warnings.catch_warnings():
             warnings.simplefilter("ignore")
             try:
@@ -1749,7 +1954,7 @@ def run_impl(case):
             cr = tuple(tuple(pynum(x, "float") for x in pr) for pr in co["many"])
         ranges = ((None, None),) * h.dim if case["ranges_given"] else None
         try:
-            cells = list(hf.iter_cells(h, ranges=ranges, coord_ranges=cr))
+            cells = list(_call(hf.iter_cells, case.get("form"), [h], [("ranges", ranges, None), ("coord_ranges", cr, None)]))
         except Exception as ex:
             return _exc(ex)
         return {"cells": [[[[enc(lo), enc(hi)] for lo, hi in c.edges], enc_nested(c.bin), list(c.index)] for c in cells]}
@@ -1771,10 +1976,6 @@ def run_impl(case):
     if op == "h2g_el":
         import lena.variables
         h = build_hist(case["h"])
-        names = case["fields"]
-        fn = ["x", "y"] if names is None else (names["s"] if "s" in names else tuple(names["t"]))
-        sc = case["scale"]
-        scale = sc if (sc is None or sc is True) else pynum(sc, "int")
         mvn = case["mv"]
         if mvn is None:
             mv = None
@@ -1786,7 +1987,7 @@ def run_impl(case):
             if case.get("defaults") and mvn is None:
                 el = lena.structures.HistToGraph()
             else:
-                el = lena.structures.HistToGraph(make_value=mv, get_coordinate=case["mode"], field_names=fn, scale=scale)
+                el = _call(lena.structures.HistToGraph, case.get("form"), [], _h2g_opts(case, mv))
         except Exception as ex:
             return {"e": exc_name(ex), "phase": "init"}
         data = h if case["is_hist"] else 7
@@ -1808,7 +2009,7 @@ def run_impl(case):
                 "bins_same": enc_nested(h.bins) == map_nested(norm, case["h"]["bins"])}
 
     if op == "scale_to":
-        objs = _group_objs(case["group"], case["ctx"])
+        objs = _share(_group_objs(case["group"], case["ctx"]), case.get("same"))
         if case["via"] == "GroupScale" and not case.get("seq", True):
             objs_arg = iter(objs)        # not a list or tuple
         elif case.get("tuple"):
@@ -1818,15 +2019,15 @@ def run_impl(case):
         t = case["target"]
         target = {"hist": lena.structures.histogram, "graph": lena.structures.graph}.get(t)
         if target is None:
-            target = pynum(t, "int")
+            target = pynum(t, case.get("tkind", "int"))
         res = {"e": None}
+        flags = [("allow_zero_scale", case["az"], False), ("allow_unknown_scale", case["au"], False)]
         try:
             if case["via"] == "scale_to":
-                ret = lena.flow.scale_to(target, objs_arg if case.get("seq", True) else objs,
-                                         allow_zero_scale=case["az"], allow_unknown_scale=case["au"])
+                ret = _call(lena.flow.scale_to, case.get("form"), [target, objs_arg if case.get("seq", True) else objs], flags)
                 res["ret"] = ret is None
             else:
-                ret = lena.flow.GroupScale(target, allow_zero_scale=case["az"], allow_unknown_scale=case["au"])(objs_arg)
+                ret = _call(lena.flow.GroupScale, case.get("form"), [target], flags)(objs_arg)
                 res["ret"] = ret is objs_arg
         except Exception as ex:
             res["e"] = exc_name(ex)
@@ -1836,7 +2037,7 @@ def run_impl(case):
     if op == "scale_to_call":
         objs = _group_objs([case["item"]], case["ctx"])
         try:
-            r = lena.structures.ScaleTo(pynum(case["s"], "int"))(objs[0])
+            r = lena.structures.ScaleTo(pynum(case["s"], case.get("tkind", "int")))(objs[0])
         except Exception as ex:
             return _exc(ex)
         d0 = lena.flow.get_data(objs[0])
@@ -1857,7 +2058,7 @@ def _canon_ctx(c):
         return [_canon_ctx(v) for v in c]
     if isinstance(c, bool) or c is None or isinstance(c, str):
         return c
-    if isinstance(c, (int, float)):
+    if isinstance(c, (int, float, F)):
         return enc(c)
     return {"obj": type(c).__name__}
 
@@ -1957,6 +2158,66 @@ def _spec_requests(case):
     return []
 
 
+def _bins_heap(hc):
+    """the list objects of a case histogram's bins as build_hist makes them (equal sub-lists are one object when
+    "alias" is set): (heap, root) with heap = list of list objects, entries numbers or {"r": address}"""
+    bins = py_nested(hc["bins"], hc.get("kind", "float"))
+    if hc.get("alias"):
+        bins = _intern_lists(bins, {})
+    heap, addr = [], {}
+
+    def visit(b):
+        if id(b) in addr:
+            return addr[id(b)]
+        cells = [({"r": visit(x)} if isinstance(x, list) else enc(x)) for x in b]
+        heap.append(cells)
+        addr[id(b)] = len(heap) - 1
+        return addr[id(b)]
+    return heap, visit(bins)
+
+
+def _refs_requests(case):
+    """requests that run the object-level model (Model/C12Alias.lean: graph.scale / md_map on list objects that may
+    be shared) on the sharing pattern of this case"""
+    op = case["op"]
+    if op == "graph" and case["exact"] and case["g"].get("alias"):
+        gc = case["g"]
+        heap, cols, seen = [], [], {}
+        for col in gc["coords"]:
+            key = repr([pynum(x, gc.get("kind", "float")) for x in col])
+            if key not in seen:
+                seen[key] = len(heap)
+                heap.append(col)
+            cols.append(seen[key])
+        return [{"op": "graph_refs", "g": model_graph(gc), "heap": heap, "cols": cols, "other": case["other"]}]
+    if op in ("hscale", "nevents") and case["exact"] and case["h"].get("alias") and well_shaped(case["h"]):
+        heap, root = _bins_heap(case["h"])
+        if op == "hscale":
+            return [{"op": "hist_scale_refs", "h": model_hist(case["h"]), "heap": heap, "root": root, "other": case["other"]}]
+        return [{"op": "nevents_refs", "h": model_hist(case["h"]), "heap": heap, "root": root, "n": case["n"],
+                 "incl": case["incl"]}]
+    return []
+
+
+def _compare_refs(case, res, m):
+    """the object-level model against the real code: what is read through the structure after the operation"""
+    op = case["op"]
+    if "err" in m:
+        return f"model driver error (object level): {m['err']}"
+    if op == "graph":
+        a = res["scaled"] if "scaled" in res else res        # the construction of the graph raised
+        if "e" in a or "e" in m:
+            return None if a.get("e") == m.get("e") else \
+                f"graph (object level): exception of scale(other): impl {a.get('e')} vs model {m.get('e')}"
+        x, y = norm_graph(a)["coords"], [[norm(v) for v in col] for col in m["coords"]]
+        return None if x == y else f"graph (object level, columns {jdump(case['g']['coords'])[:200]} shared where equal): " \
+                                   f"columns after scale(other): impl {jdump(x)[:300]} vs model {jdump(y)[:300]}"
+    if "e" in res or "e" in m:
+        return None if res.get("e") == m.get("e") else f"{op} (object level): exception: impl {res.get('e')} vs model {m.get('e')}"
+    x, y = map_nested(_nq, res["after"]["bins"]), map_nested(_nq, m["bins"])
+    return None if x == y else f"{op} (object level, equal rows shared): bins afterwards: impl {jdump(x)[:300]} vs model {jdump(y)[:300]}"
+
+
 def _mv_model(reqs):
     """a make_value returning a list is, for the model, the same function as the one returning a tuple"""
     for r in reqs:
@@ -1973,7 +2234,7 @@ def _model_requests(case):
     main = _main_requests(case)
     if case["op"] in ("csv_flow", "h2g_flow", "chain", "gchain"):
         return main
-    return main + (_spec_requests(case) if main else [])
+    return main + ((_spec_requests(case) + _refs_requests(case)) if main else [])
 
 
 def _main_requests(case):
@@ -2054,8 +2315,8 @@ def _main_requests(case):
     if op == "scale_to":
         if case["via"] == "GroupScale":
             return [{"op": "group_scale", "seq": case.get("seq", True), "target": case["target"],
-                     "group": [_model_item(i) for i in case["group"]], "az": case["az"], "au": case["au"]}]
-        return [{"op": "scale_to", "target": case["target"], "group": [_model_item(i) for i in case["group"]],
+                     "group": [_model_item(i) for i in _once(case, case["group"])], "az": case["az"], "au": case["au"]}]
+        return [{"op": "scale_to", "target": case["target"], "group": [_model_item(i) for i in _once(case, case["group"])],
                  "az": case["az"], "au": case["au"]}]
     if op == "scale_to_call":
         return [{"op": "scale_to_call", "item": _model_item(case["item"]), "s": case["s"]}]
@@ -2256,8 +2517,9 @@ def compare(case, res, replies):
                 return f"value {k} of the flow: {msg}"
         return None
     msg = _compare_main(case, res, replies)
-    if msg is None and len(replies) > 1:
-        msg = _compare_spec(case, replies[1])
+    for extra in replies[1:]:
+        if msg is None:
+            msg = _compare_refs(case, res, extra) if extra.get("refs") else _compare_spec(case, extra)
     return msg
 
 
@@ -2426,7 +2688,7 @@ def _compare_main(case, res, replies):
                     [dim, nbins, _nq(nout), [[_nq(x) for x in r] for r in ranges]])
     if op == "scale_to":
         return (diff("exception", res["e"], m["e"]) or
-                diff("group", [_norm_struct(s) for s in res["group"]], [_norm_struct(s) for s in m["group"]]))
+                diff("group", [_norm_struct(s) for s in _once(case, res["group"])], [_norm_struct(s) for s in m["group"]]))
     if op == "scale_to_call":
         if "e" in res or "e" in m:
             return diff("exception", res.get("e"), m.get("e"))
@@ -3041,6 +3303,8 @@ def _unchanged_item(it, after):
 
 
 def _oracle_scale_to(case, res):
+    if case.get("same"):
+        return _oracle_scale_to(dict(case, same=None, group=_once(case, case["group"])), dict(res, group=_once(case, res["group"])))
     group, t = case["group"], case["target"]
     if case["via"] == "GroupScale" and not case.get("seq", True):
         if res["e"] != "LenaValueError":
@@ -3207,6 +3471,13 @@ def _chain_valid(steps):
     return True
 
 
+def _follow_scale(old, new):
+    """a stored scale that was "computed before" (equal to the integral) stays the integral of the shrunk bins - a
+    shrunk case must not turn into a histogram with a stale stored scale"""
+    if new.get("scale") is not None and well_shaped(old) and well_shaped(new) and q(old["scale"]) == ref_integral(old):
+        new["scale"] = enc(ref_integral(new))
+
+
 def shrink(case):
     op = case["op"]
     if op == "chain":
@@ -3230,6 +3501,7 @@ def shrink(case):
                     if shape_of(h2) != shape_of(case["a"]):
                         continue
                     c["b"] = b2
+                _follow_scale(case[key], h2)
                 if op == "hscale" and case.get("exact"):
                     # keep the ratio target / old scale
                     i_old, i_new = ref_integral(case["h"]), ref_integral(h2)
@@ -3244,7 +3516,7 @@ def shrink(case):
                 yield c
     if op == "scale_to" and len(case["group"]) > 1:
         for i in range(len(case["group"])):
-            yield dict(case, group=case["group"][:i] + case["group"][i + 1:])
+            yield dict(case, group=case["group"][:i] + case["group"][i + 1:], same=None)
     if op == "graph":
         g = case["g"]
         if g["coords"] and len(g["coords"][0]) > 1:
